@@ -1625,6 +1625,9 @@ func (m *Monitors) c03Step(o *Op, res string, pre *Pre, s *Snap, bal map[int64]*
 		amt := big.NewInt(0)
 		if o.Dep.Kind == "B" {
 			amt = big.NewInt(o.Dep.Amt)
+			if o.Dep.Big != "" {
+				amt, _ = new(big.Int).SetString(o.Dep.Big, 10)
+			}
 		}
 		before := big.NewInt(0)
 		pb, existed := pre.snap.Binds[k]
